@@ -17,7 +17,7 @@ def run_pipeline(ctx, cases, chunk=60):
         return {"Text": c["Text"], "Weight": bool(c.get("Weight")), "Repeat": int(c.get("Repeat", 1)),
                 "Solve": bool(c.get("Solve")), "Assemble": bool(c.get("Assemble")),
                 "Error": c.get("Error", ""), "Order": c.get("Order", ""), "ScratchDir": scratch or ctx.work,
-                "ViaPre": bool(c.get("ViaPre")), "Restage": int(c.get("Restage") or 0), "Reassemble": bool(c.get("Reassemble")), "Repre": bool(c.get("Repre")), "KeepPre": bool(c.get("KeepPre")), "WriteBack": bool(c.get("WriteBack")), "ParseOnly": bool(c.get("ParseOnly")),
+                "ViaPre": bool(c.get("ViaPre")), "Restage": int(c.get("Restage") or 0), "Reassemble": bool(c.get("Reassemble")), "Repre": bool(c.get("Repre")), "KeepPre": bool(c.get("KeepPre")), "HoldText": c.get("HoldText") or "", "WriteBack": bool(c.get("WriteBack")), "ParseOnly": bool(c.get("ParseOnly")),
                 "Repo": C.REPO, "Templates": bool(c.get("Templates"))}
     outs = [None] * len(cases)
     conc = [k for k, c in enumerate(cases) if c.get("Concurrent") and not c.get("Isolate")]
